@@ -76,7 +76,22 @@ FLOORS = {
         'poll_calls': 90, 'poll_woken_by_data': 20, 'poll_false_empty': 20,
         'polls_interrupted_by_signal': 25, 'wait_calls': 20,
     },
-    'thorough': {},
+    'thorough': {
+        'messages': 17000, 'crc_checked': 13000, 'scenarios_shim': 500, 'scenarios_kfrag': 40,
+        'bidirectional_scenarios': 60, 'raw_wire_streams': 60,
+        'short_w': 1000000, 'short_r': 1000000, 'eintr_w': 120000, 'eintr_r': 120000,
+        'k_short_w': 1200, 'k_short_r': 50000, 'header_splits': 200,
+        'boundary_eof': 250, 'mid_header_eof': 750, 'mid_payload_eof': 3000,
+        'clean_eof_seen': 500, 'eof_inj': 2000,
+        'len:0': 200, 'len:1': 200, 'len:4k': 1400, 'len:16k-': 1000, 'len:16k+': 800,
+        'len:64k': 1300, 'len:1MiB': 8, 'len:8MiB': 4,
+        'maxlength_equal': 20, 'maxlength_oversized': 34, 'oversized_then_unreadable': 34,
+        'buffer_too_short_seen': 300, 'into_fits': 380, 'into_invalid_offset': 200,
+        'send_offset_valid': 1700, 'send_offset_invalid': 850, 'rejected_calls': 1600,
+        'closed_handle_calls': 440, 'wrong_direction_calls': 110,
+        'poll_calls': 600, 'poll_woken_by_data': 150, 'poll_false_empty': 150,
+        'polls_interrupted_by_signal': 150, 'wait_calls': 150,
+    },
 }
 JOBS = 14
 SPEC_TIMEOUT = 420
